@@ -199,7 +199,7 @@ func normaliseOut(s, dir string, bothMissing bool) string {
 
 func (c12Sim) Run(e *Env, ci interface{}) {
 	c := ci.(*C12Case)
-	if !c.Layout.Valid() || c.Clock0 < 946684800 || c.Clock0 > math.MaxInt32-400*86400-10 || len(c.Files) > 30 || len(c.Cmds) > 12 {
+	if !c.Layout.Valid() || c.Clock0 < 946684800 || c.Clock0 > math.MaxUint32-3*400*86400 || len(c.Files) > 30 || len(c.Cmds) > 12 {
 		e.Skip("invalid-case")
 		return
 	}
